@@ -1055,6 +1055,18 @@ class GraphWorld(BaseWorld):
         apos = {id(a): i for i, a in enumerate(s.g.attackers)}
         s2.amap = {k: g2.attackers[apos[id(a)]] for k, a in s.amap.items()}
         self.slots.append(s2)
+        # all internal references of the copy stay inside the copy, its lookups answer
+        # with its own nodes, both sides of the compromise relation were copied
+        if self.prop == 'C14':
+            self._tmp_armed = {'C09', 'C11'}
+        try:
+            self.check_structure(s2, 'deepcopy [the copy]')
+        except Violation as v:
+            if self.prop == 'C14':
+                raise Violation('C14.closed', v.message) from None
+            raise
+        finally:
+            self._tmp_armed = set()
         self.count('oracle:C14.equal')
         a, b = call(s.g._to_dict), call(g2._to_dict)
         if a.raised or b.raised or canon(a.value) != canon(b.value):
@@ -1102,8 +1114,6 @@ class GraphWorld(BaseWorld):
         self._touch(s2)
         s.mutated_since_copy = False
         s2.mutated_since_copy = False
-        # closure + lookups + content of the copy: the ordinary checks on the new slot
-        self.check_structure(s2, 'deepcopy [the copy]')
         self.check_ref(s2, 'deepcopy [the copy]', 'C14.equal')
         self.check_all('deepcopy', only=len(self.slots) - 1)
         self.count('probe:copy_of_copy') if s.copied_from is not None else None
